@@ -42,6 +42,16 @@ theorem count_toNat (cs : Bool) {cw : Nat} (c : BitVec cw) (hc : cw ≤ 64) (h0 
     have := BitVec.toInt_eq_toNat_of_msb hm
     omega
 
+/-- the test of genValueShiftCount (`_ = 0 << i` on the int64 count) fires exactly on the negative counts of a signed kind -/
+theorem count_neg_iff (cs : Bool) {cw : Nat} (c : BitVec cw) (hc : cw ≤ 64) :
+    (cs = true ∧ (widen cs c).msb = true) ↔ value cs c < 0 := by
+  cases cs
+  · simp [value]
+  · have h1 : (widen true c).toInt = c.toInt := toInt_widen_true c hc
+    simp only [value, if_true, true_and]
+    rw [BitVec.msb_eq_toInt, h1]
+    simp
+
 /-! ### left shift -/
 
 theorem model_shl (s : Bool) (x : BitVec w) (n : Nat) (h : w ≤ 64) :
